@@ -657,7 +657,7 @@ impl G {
             }
         } else {
             for (b, i) in [(Some(3u8), Some((6u8, 1u8))), (Some(3), Some((7, 1))), (Some(5), Some((6, 1))), (Some(5), Some((7, 1))), (Some(6), None), (Some(7), None), (Some(5), None), (Some(3), None)] {
-                for d in [0i64, (self.r.below(200) as i64) - 100, (self.r.below(0x8000) as i64) + 0x100, 0xfff0] {
+                for d in [0i64, (self.r.below(200) as i64) - 100, (self.r.below(0x7e00) as i64) + 0x100, -0x1234 - (self.r.below(0x4000) as i64)] {
                     shapes.push(Op::Mem { base: b, index: i, disp: d, asz: 16, rip: false });
                 }
             }
@@ -1540,12 +1540,19 @@ fn main() {
             bump("samples:cpu-result", ncpu_ok);
             bump("samples:cpu-fault-skipped", ncpu_sig);
             if spec { bump("samples:spec-vs-cpu", ncpu_ok); bump("encodings:with-spec", 1); } else { bump("encodings:cpu-only", 1); }
-            // same predicate as Isa/X86Mirror.mirror_instr: register destination, register/immediate source
+            // same predicate as Isa/X86Mirror.mirror_instr (forms with a Gallina mirror, a sim theorem and the syntactic tie)
             let regimm = f.ops.iter().all(|o| !o.is_mem());
-            let mirrored = regimm && !f.ops.is_empty() && !matches!(f.ops[0], Op::Imm(_))
+            let dst_reg = !f.ops.is_empty() && matches!(f.ops[0], Op::Reg(_) | Op::RegH(_));
+            let mirrored = (regimm && dst_reg
                 && ((f.class == "mov") || (f.class == "alu" && ["add", "sub", "cmp", "and", "or", "xor"].contains(&f.mnem.as_str()))
-                    || (f.class == "unary" && ["inc", "dec"].contains(&f.mnem.as_str())));
+                    || (f.class == "unary" && ["inc", "dec"].contains(&f.mnem.as_str()))
+                    || f.class == "setcc" || f.class == "movx"))
+                || (f.class == "lea" && matches!(f.ops.get(1), Some(Op::Mem { base, index, rip, .. }) if !*rip && (base.is_some() || index.is_some())));
             if mirrored { bump("encodings:mirror-syntactic-tie", 1); }
+            // ... of which also covered by a sim theorem: all but `xor x, x` (lifted to the constant 0) and setp/setnp (PF is
+            // not part of the embedding)
+            let excluded = (f.mnem == "xor" && f.ops.len() == 2 && f.ops[0] == f.ops[1]) || f.mnem == "setp" || f.mnem == "setnp";
+            if mirrored && !excluded { bump("encodings:sim-theorem-and-tie", 1); }
         }
         let mname = if f.mode == Mode::M64 { "amd64" } else { "x86" };
         let mut tags = vec![format!("mode:{}", mname), format!("class:{}", f.class), format!("lift:{}", lkind), format!("mnem:{}", f.mnem.split(' ').last().unwrap_or("")), format!("sz:{}", f.sz)];
